@@ -124,15 +124,26 @@ theorem sem (r : Re) : ∀ c, FoldRel r c → ∀ s t w, Den c s t → s.post = 
       (by rw [goItems_anyNL]; exact Sat.single_other ⟨fun _ hl => by simp at hl, fun _ hk => by simp at hk⟩)
   | cls neg rs f =>
     intro c hrel s t w hd hw
-    cases hrel
-    cases hd with
-    | @cls _ _ _ pre b post hm =>
-      have : w = [b] := by
-        simp only at hw
-        exact (List.append_cancel_right (bs := post) (by simpa using hw.symm))
-      subst this
-      refine wrap (.cls neg rs f) (fun _ _ h => by cases h) ?_
-      simpa [goItems_cls, toLower] using cls_sat neg rs _ b hm
+    cases hrel with
+    | cls =>
+      cases hd with
+      | @cls _ _ _ pre b post hm =>
+        have : w = [b] := by
+          simp only at hw
+          exact (List.append_cancel_right (bs := post) (by simpa using hw.symm))
+        subst this
+        refine wrap (.cls neg rs f) (fun _ _ h => by cases h) ?_
+        simpa [goItems_cls, toLower] using cls_sat neg rs _ b hm
+    | clsLit _ _ _ ch g f' hc =>
+      -- compiled as the literal `push` makes of the class: the item of the class IS that literal
+      cases hd with
+      | lit h =>
+        obtain ⟨x, h1, _, h3⟩ := litStep_shape _ _ _ _ h
+        have : w = x := List.append_cancel_right (hw.symm.trans h1)
+        subst this
+        refine wrap (.cls neg rs f) (fun _ _ h => by cases h) ?_
+        rw [h3, goItems_cls, clsItem_of_clsLit hc]
+        exact Sat.single_lit [ch] g
   | bol =>
     intro c hrel s t w hd hw
     cases hrel
@@ -237,5 +248,34 @@ theorem goReq_search {r c : Re} (hrel : FoldRel r c) {u : Bytes} (h : search c u
   have := (sem r c hrel _ _ y hd rfl).2.2 l hl
   rw [toLower_append, toLower_append]
   exact hasSub_append_left _ (hasSub_append_right _ this)
+
+/-- Whenever the text-level shortcut model answers, the answer is empty or the candidate selected
+    against `goReq` of the parsed text (the text has no `?`, hence no flag prefix). -/
+theorem modelRegexpShortcut_some {p sc : Bytes} (h : modelRegexpShortcut p = some sc) :
+    sc = [] ∨ (((p.drop 1).dropLast).any (· == 63) = false ∧
+      ∃ tree, parseCore ((p.drop 1).dropLast) = some tree ∧
+        sc = pickLongest (regexParts ((p.drop 1).dropLast)) (goReq tree)) := by
+  unfold modelRegexpShortcut at h
+  simp only at h
+  split at h
+  · cases h
+  · split at h
+    · cases h; exact .inl rfl
+    · rename_i hq
+      right
+      refine ⟨by simpa using Bool.eq_false_iff.2 hq, ?_⟩
+      cases hp : parseCore ((p.drop 1).dropLast) with
+      | none => rw [hp] at h; cases h
+      | some tree =>
+        rw [hp] at h
+        refine ⟨tree, rfl, ?_⟩
+        simp only at h
+        split at h
+        · split at h
+          · split at h
+            · cases h; rfl
+            · cases h
+          · cases h
+        · cases h; rfl
 
 end UF.I2
